@@ -6,7 +6,7 @@ Traces == ndJsonDeserialize(IOEnv.VF_RECS)
 VARIABLES i, ph
 Init == i \in 1..Len(Traces) /\ ph = 0
 Next == ph = 0 /\ ph' = 1 /\ UNCHANGED i
-J == ph = 1
+J == ph = 1 /\ ~Traces[i].slow       \* (runs that came too close to a near real-time deadline are not judged)
 T == Traces[i]
 Ev == T.ev
 N == Len(Ev)
